@@ -105,7 +105,7 @@ fn set_fit(ib: &mut ImageBuilder, fit: Fit, order: u8) {
 pub fn image_builder_ordered(c: &SvgCfg, fit: Fit, fit_order: u8) -> ImageBuilder {
     let mut ib = ImageBuilder::default();
     if fit_order < 2 {
-        c.apply(&mut ib);
+        c.apply_for_warm(&mut ib);
     }
     match fit {
         Fit::Original => {}
@@ -126,7 +126,7 @@ pub fn image_builder_ordered(c: &SvgCfg, fit: Fit, fit_order: u8) -> ImageBuilde
         }
     }
     if fit_order >= 2 {
-        c.apply(&mut ib);
+        c.apply_for_warm(&mut ib);
     }
     ib
 }
